@@ -107,6 +107,18 @@ def make(spec):
     import numpy as np
     from blackbird import BlackbirdProgram
     V = _values()
+    if spec.get("share"):
+        # one object per value of the alphabet for the whole program (the same array / list handed to several operations)
+        made = {}
+        base = V
+
+        class _Shared:
+            def __getitem__(self, i):
+                cls, lab, f = base[i]
+                if i not in made:
+                    made[i] = f()
+                return (cls, lab, lambda i=i: made[i])
+        V = _Shared()
     p = BlackbirdProgram(name=spec.get("name", "prog"), version=spec.get("version", "1.0"))
     for tag, holder in (("target", p.target), ("type", p.programtype)):
         t = spec.get(tag)
@@ -201,6 +213,14 @@ def judge(spec):
         d = [x for x in d if not x.startswith("parameters")]
     if d:
         return (key("differs", equiv.classify(d)), "; ".join(d)[:300] + " ;; " + t[-200:])
+    if spec.get("share"):
+        # serialising must leave the values it was given as they were, and give the same text again
+        st3, t3 = common.dumps(p)
+        if st3 == "exc" or t3 != t:
+            return (key("second-dumps-differs"), "first %r ;; second %r" % (t[-200:], (t3 if st3 == "ok" else common.exc_sig(t3))[-200:]))
+        d = equiv.prog_equiv(make(spec), p)
+        if d:
+            return (key("dumps-changed-the-values-it-was-given", equiv.classify(d)), "; ".join(d)[:300])
     if spec.get("file"):
         # the file interface (dump into one working file per worker, load it back) must give what the string route gives
         fr = common.file_route(make(spec))
@@ -246,6 +266,9 @@ def build(ctx):
         add("sweep: alone", {"ops": [{"op": "G", "args": [i], "modes": [0]}]})
     for i in scalars + lists + arrays[::5]:
         add("file route", {"target": ("g", [("o", i if i not in arrays else 0)]), "ops": [{"op": "G", "args": [i] if i not in lists else [1], "kwargs": [("k", i)], "modes": [1, 0]}], "file": True})
+    for i in arrays + lists:
+        add("one object, several uses", {"ops": [{"op": "G", "args": [i], "modes": [0]}, {"op": "H", "args": [1], "kwargs": [("k", i)], "modes": [1]}, {"op": "K", "args": [i, i], "modes": [0, 1]}], "share": True}
+            if i in arrays else {"target": ("g", [("o", i)]), "ops": [{"op": "H", "args": [1], "kwargs": [("k", i), ("l", i)], "modes": [1]}], "share": True})
     step = 1
     for i, j in itertools.product(scalars[::step] + arrays[::4], repeat=2):
         add("2 positional", {"ops": [{"op": "G", "args": [i, j], "modes": [1, 0], "npmodes": True}]})
